@@ -30,18 +30,6 @@ Proof.
   arith_facts2; open_phase s I; open_inv' I; use_flags; try lia; open_goal; rw_flags; fin_all2.
 Qed.
 
-Lemma inv_EUWSlow : forall s c w r s', inv s -> step s (EUWSlow c w r) = Some s' -> inv s'.
-Proof.
-  intros s c w r s' I H. unfold step, get, run_writer, pass_readers in H. case_hyp H.
-  all: injection H as <-; prep_b; subst; split_or.
-  all: try match goal with H : wq ?s = _ :: _ |- _ => pose proof (f_equal (@length nat) H); cbn [length] in * end.
-  all: try match goal with H : rq ?s = [] |- _ => pose proof (f_equal (@length nat) H); cbn [length] in * end.
-  all: arith_facts; open_phase s I; open_inv' I; use_flags; try lia; open_goal; rw_flags; fin_all.
-  all: try match goal with H : wq ?s = _ :: _ |- _ => rewrite H in * end.
-  all: try rq_nonempty s.
-  all: occ_simpl.
-Qed.
-
 Lemma inv_EUWStore : forall s c v s', inv s -> step s (EUWStore c v) = Some s' -> inv s'.
 Proof.
   intros s c v s' I H. start_event H. all: second_lookup.
@@ -53,10 +41,3 @@ Proof.
   all: rq_nonempty s.
 Qed.
 
-Lemma inv_EUWRun : forall s c n s', inv s -> step s (EUWRun c n) = Some s' -> inv s'.
-Proof.
-  intros s c n s' I H. start_event H. all: second_lookup.
-  all: arith_facts2; open_phase s I; open_inv' I; use_flags; try lia; open_goal; rw_flags.
-  all: fin_all2.
-  all: destruct l0; cbn [length] in *; [lia | exact I].
-Qed.
